@@ -1213,13 +1213,13 @@ def explore(res, tname, n, route, depth, deadline, split=(0, 1)):
 # ====================================================================== construction clause (shape A)
 GIVEN = ['text', 'numeric-text', 'ints', 'floats', 'bools', 'nested-ints', 'nested-text', 'none', 'text-array', 'float-array',
          'object-array', 'encoded-text', 'string-array', 'ragged-ints', 'table', 'entries', 'scalar-int', 'scalar-text', 'dicts',
-         'genotype-text', 'dna-text']
+         'genotype-text', 'dna-text', 'amino-text']
 GIVEN_TEXT = {'text': ['x', 'yy'], 'numeric-text': ['3', '4'], 'text-array': ['x', 'yy'], 'encoded-text': ['x', 'yy'],
-              'string-array': ['x', 'yy'], 'dna-text': ['AC', 'GTT']}      # the text rows a text-like argument stands for
+              'string-array': ['x', 'yy'], 'dna-text': ['AC', 'GTT'], 'amino-text': ['AC', 'DA']}      # the text rows a text-like argument stands for
 GIVEN_CLASS = {'text': 'text', 'numeric-text': 'text', 'text-array': 'text', 'encoded-text': 'text', 'string-array': 'text',
                'scalar-text': 'scalar', 'ints': 'int', 'bools': 'int', 'floats': 'float', 'float-array': 'float',
                'nested-ints': 'nested', 'nested-text': 'nested', 'ragged-ints': 'nested', 'none': 'none', 'object-array': 'object',
-               'table': 'table', 'entries': 'entries', 'scalar-int': 'scalar', 'dicts': 'object', 'genotype-text': 'text', 'dna-text': 'text'}
+               'table': 'table', 'entries': 'entries', 'scalar-int': 'scalar', 'dicts': 'object', 'genotype-text': 'text', 'dna-text': 'text', 'amino-text': 'text'}
 DECLARED = ['int', 'float', 'bool', 'optint', 'str', 'id', 'intlist', 'dna', 'strand', 'qual', 'table', 'gt']
 
 
@@ -1237,6 +1237,8 @@ def given_value(g):
         'dicts': lambda: [{'a': 1}, {'a': 2}],
         'genotype-text': lambda: T['as_encoded_array'](['0/1\t1/1\t', '0|0\t./.\t']),
         'dna-text': lambda: T['as_encoded_array'](['AC', 'GTT'], T['bnp'].DNAEncoding),
+        # text already encoded in ANOTHER alphabet whose letters are not all in the declared one (D is no DNA letter)
+        'amino-text': lambda: T['as_encoded_array'](['AC', 'DA'], T['bnp'].encodings.AminoAcidEncoding),
     }[g]()
 
 
@@ -1291,7 +1293,7 @@ def construct_case(declared, given, route):
         except Exception as e:
             got = 'unreadable: %s' % type(e).__name__
         if got != GIVEN_TEXT[given]:
-            return 'fail', ('construction-stores-other-text', dict(feats, given_encoding='dna' if given == 'dna-text' else 'ascii/str'),
+            return 'fail', ('construction-stores-other-text', dict(feats, given_encoding='dna' if given == 'dna-text' else ('amino-acid' if given == 'amino-text' else 'ascii/str')),
                             GIVEN_TEXT[given], got, None), 1
     return 'ok:' + describe(col).split('[')[0].split('<')[0], None, 1
 
